@@ -23,12 +23,34 @@ from .c11 import value_terms, new_interp
 SIG = ("param", "signature")
 
 
-def orderlen_of(W, order):
+def orderlen_of(W, order, chk=None):
+    """symbolic value of util.orderlen(order); its shape must be ceil(bitlen(order)/8) computed
+    from the order itself: (1 + len('%x' % order)) // 2  or  (bit_length(order) + 7) // 8"""
     it = new_interp(W)
     rets, raises = it.analyse("util:orderlen", [order])
-    if len(rets) != 1 or not isinstance(rets[0][0], VInt):
-        raise AnalysisError("orderlen(order) is not a single integer expression")
-    return rets[0][0].lin
+    vals = [v for v, _s in rets if isinstance(v, VInt)]
+    if not vals:
+        raise AnalysisError("orderlen(order) does not return an integer expression")
+    ot = order.lin.key()
+
+    def ok_shape(l):
+        t = l.single_sym()
+        if not t or t[0] != "floordiv":
+            return False
+        num = dict((a_.t, b_) for a_, b_ in t[1][0])
+        c0, d = t[1][1], t[2]
+        if d == 2 and c0 == 1 and len(num) == 1:
+            (k, co), = num.items()
+            return co == 1 and k[0] == "len" and k[1][0] == "fmt" and k[1][1] == repr("%x") and k[1][2] == order.lin.single_sym()
+        if d == 8 and c0 == 7 and len(num) == 1:
+            (k, co), = num.items()
+            return co == 1 and k[0] == "bit_length" and k[1] == ot
+        return False
+    good = len(vals) == len(rets) and all(ok_shape(v.lin) for v in vals) and len({v.lin.key() for v in vals}) == 1
+    if chk is not None:
+        chk.ob("R12.4", "orderlen(order) = ceil(bitlen(order) / 8), computed from the order itself", good, loc="util:orderlen", key="C12|R12.4|orderlen",
+               detail="orderlen is not (1 + len('%%x' %% order)) // 2 nor (bit_length(order) + 7) // 8: %s" % [repr(v.lin)[:80] for v in vals][:2])
+    return vals[0].lin
 
 
 def int_of_source(v):
@@ -45,12 +67,23 @@ def run(chk):
     chk.rule("R12.2", "DER signature decoder: only UnexpectedDER escapes, every reader remainder consumed or proven empty, (r, s) from first and second INTEGER")
     chk.rule("R12.3", "writer/reader pairing of the three signature formats")
     chk.rule("R12.4", "number_to_string / string_to_number_fixedlen derive their length from orderlen(order) and are length-exact")
+    decoders(chk)
+    writers(chk)
+
+
+def _setup(chk):
     chk.configs = ["py3"]
     W = world()
     order = VInt(Lin.sym(("param", "order")))
     st0 = State().assume_ge(order.lin - 2)
-    L = orderlen_of(W, order)
+    L = orderlen_of(W, order, chk)
 
+    return W, order, st0, L
+
+
+def decoders(chk):
+    """strictness of the three signature decoders (also run by C02 through a renaming proxy)"""
+    W, order, st0, L = _setup(chk)
     # ---- R12.1 sigdecode_string
     q = "util:sigdecode_string"
     it = new_interp(W)
@@ -139,6 +172,9 @@ def run(chk):
                 ok_chain = False
     chk.ob("R12.2", "sigdecode_der: SEQUENCE body -> INTEGER r -> INTEGER s, returned in that order", ok_chain, loc=q, key="C12|R12.2|chain", detail="r/s are not the first/second INTEGER of the SEQUENCE body")
 
+
+def writers(chk):
+    W, order, st0, L = _setup(chk)
     # ---- R12.3 writers
     m = W.p.modules["util"]
     rr, ss = VInt(Lin.sym(("param", "r"))), VInt(Lin.sym(("param", "s")))
